@@ -617,6 +617,146 @@ CONTOUR2D.ghost_state = ("__drawn",)
 TASKS.append(FunctionTask(CONTOUR2D, module_env=_CONT_ENV, registry=_CONT_REG, label=_QP + "plot_azimuthal_contour_2d[given axes, peaks on]",
                           clauses=["the azimuthal contour shows the object's per-azimuth mean curves and their peaks for the distribution asked for"]))
 
+# ---------------------------------------------------------------------------------------------------------------------
+# plot_seismic_recordings_3c: three axes given, a list of recordings of symbolic length.  Axis a shows component a (north, east, vertical): one line per recording,
+# in order, carrying that component's samples divided by one common factor (1 without normalisation), against the recording's own time vector shifted so that the
+# recordings follow one another; the line has the accepted style exactly when the mask accepts the recording (all accepted without a mask); the recordings are not
+# written.  The loops over recordings by invariant (the two loops over components are unrolled).
+from pyvc.objects import SObj as _SObj20
+import pyvc.objects as _ob20
+LR, LM = z3.Ints("n_recordings n_mask_entries")
+RRP = z3.Const("recording_ids", z3.ArraySort(I, I))
+MASKP = z3.Const("recordings_mask", z3.ArraySort(I, B))
+_COMPS = ("ns", "ew", "vt")
+STARTT = z3.Function("start_time_of", I, I, R)        # (component, recording) -> time at which the recording's line starts
+
+
+def _ts_of(t, c):
+    """id of component c (a concrete index) of recording t"""
+    return _ob20.fld("SeismicRecording3C", _COMPS[c], I)(z3.Select(RRP, t))
+
+
+def _tslen(t, c):
+    return _ob20.arr_len("TimeSeries", "amplitude", _ts_of(t, c))
+
+
+def _tsdt(t, c):
+    return _ob20.fld("TimeSeries", "dt_in_seconds", R)(_ts_of(t, c))
+
+
+def _tsamp(t, c, j):
+    return _ob20.arr_at("TimeSeries", "amplitude", _ts_of(t, c), j)
+
+
+def _by_comp(f, c, *a):
+    c = lit(c)
+    return z3.If(c == 0, f(*a[:1], 0, *a[1:]), z3.If(c == 1, f(*a[:1], 1, *a[1:]), f(*a[:1], 2, *a[1:])))
+
+
+_tq, _cq = z3.Ints("t!st c!st")
+AX_START = [z3.ForAll([_cq], STARTT(_cq, 0) == 0, patterns=[STARTT(_cq, 0)])] + \
+           [z3.ForAll([_tq], z3.Implies(_tq >= 0, STARTT(c, _tq + 1) == STARTT(c, _tq) + z3.ToReal(_tslen(_tq, c) - 1) * _tsdt(_tq, c)), patterns=[STARTT(c, _tq + 1)]) for c in range(3)]
+
+
+def _rec_inputs(normalize, mask):
+    def mk(ex, st):
+        st.env["srecords"] = new_symlist(ex, st, "SeismicRecording3C", length=LR, arr=RRP, owner="param:srecords", name="srecords")
+        st.env["valid_window_boolean_mask"] = NONE if mask == "None" else ex.alloc_arr(st, (LM,), MASKP, "bool", "param:valid_window_boolean_mask", tag="mask")
+        axes = [sym_obj(ex, st, "Axes", {"index": z3.IntVal(a)}, owner=f"param:axs[{a}]") for a in range(3)]
+        st.env["axs"] = ex.alloc_list(st, axes, owner="param:axs")
+        st.env["subplots_kwargs"], st.env["normalize"] = NONE, z3.BoolVal(normalize)
+        for a in range(3):
+            st.env[f"__y{a}"] = new_symlist(ex, st, None, elem_sort=z3.ArraySort(I, R), owner="fresh", name=f"y{a}")
+            # the other attributes of line t of axis a, indexed like the list of y-vectors (one counter per axis)
+            st.env[f"__x{a}"] = z3.K(I, z3.K(I, z3.RealVal(0)))
+            st.env[f"__n{a}"] = z3.K(I, z3.IntVal(0))
+            st.env[f"__v{a}"] = z3.K(I, z3.BoolVal(False))
+        t, j = z3.Ints("t!pre j!pre")
+        facts = [LR >= 1, LM >= 0] + [z3.ForAll([t], z3.And(_tslen(t, c) >= 1, _tsdt(t, c) > 0), patterns=[_ts_of(t, c)]) for c in range(3)]
+        if normalize:
+            facts.append(_tsamp(0, 0, 0) != 0)        # precondition of the normalised display: some sample is not zero (here: the first north sample of the first recording)
+        return facts
+    return mk
+
+
+def _m_ts_time(ex, st, args, kw, node):
+    o = args[0]
+    n, dt_ = _ob20.arr_len("TimeSeries", "amplitude", o.id), _ob20.fld("TimeSeries", "dt_in_seconds", R)(o.id)
+    return ex.alloc_arr(st, (n,), ex.lam1(lambda i: z3.ToReal(i) * dt_), "real", "fresh", tag="time")
+
+
+def _m_rec_plot(ex, st, args, kw, node):
+    ax, x, y = args[0], args[1], args[2]
+    a = z3.simplify(st.heap[ax.oid].fields["index"]).as_long()
+    dx, dy = ex.arr(st, x), ex.arr(st, y)
+    style = kw.get("style")
+    if type(style) is not StrV:
+        raise Undecided("the line style handed to ax.plot is not one of the two default styles")
+    pos = st.heap[st.env[f"__y{a}"].sid].length
+    st.env[f"__x{a}"] = z3.Store(st.env[f"__x{a}"], pos, dx.data)
+    st.env[f"__n{a}"] = z3.Store(st.env[f"__n{a}"], pos, dy.shape[0])
+    st.env[f"__v{a}"] = z3.Store(st.env[f"__v{a}"], pos, z3.BoolVal(style.s == "individual_valid_hvsr_curve"))
+    _o20.symlist_append(ex, st, st.env[f"__y{a}"], y, node)
+    return NONE
+
+
+def _rec_sel(kind):
+    def f(ex, st, a, k, n_):
+        ax, t = lit(a[0]), lit(a[1])
+        arrs = [st.heap[st.env[f"__{kind}{i}"].sid].arr if kind == "y" else st.env[f"__{kind}{i}"] for i in range(3)]
+        v = z3.If(ax == 0, z3.Select(arrs[0], t), z3.If(ax == 1, z3.Select(arrs[1], t), z3.Select(arrs[2], t)))
+        return z3.Select(v, lit(a[2])) if len(a) > 2 else v
+    return FuncV(f, kind.upper())
+
+
+def _rec_count(ex, st, a, k, n_):
+    ax = lit(a[0])
+    ls = [st.heap[st.env[f"__y{i}"].sid].length for i in range(3)]
+    return z3.If(ax == 0, ls[0], z3.If(ax == 1, ls[1], ls[2]))
+
+
+_REC_STYLES = DictV({k: DictV({"label": StrV(k), "style": StrV(k)}, owner="module") for k in ("individual_valid_hvsr_curve", "individual_invalid_hvsr_curve")}, owner="module")
+_REC_G = {"LINEY": _rec_sel("y"), "LINEX": _rec_sel("x"), "NPTS": _rec_sel("n"), "ACCEPTED_STYLE": _rec_sel("v"), "n_lines": FuncV(_rec_count, "n_lines"), "L": LR,
+          "AMP": FuncV(lambda ex, st, a, k, n_: _by_comp(lambda t, c, j: _tsamp(t, c, j), a[1], lit(a[0]), lit(a[2])), "AMP"),
+          "LEN": FuncV(lambda ex, st, a, k, n_: _by_comp(lambda t, c: _tslen(t, c), a[1], lit(a[0])), "LEN"),
+          "DT": FuncV(lambda ex, st, a, k, n_: _by_comp(lambda t, c: _tsdt(t, c), a[1], lit(a[0])), "DT"),
+          "START": lambda c, t: STARTT(c, t),
+          "NORM": FuncV(lambda ex, st, a, k, n_: npm.real(st.env["normalization_factor"]), "NORM"),
+          "CI": FuncV(lambda ex, st, a, k, n_: z3.IntVal(_COMPS.index(st.env["component"].s)), "CI"),
+          "AXI": FuncV(lambda ex, st, a, k, n_: st.heap[st.env["ax"].oid].fields["index"], "AXI"),
+          "MASK": None}
+
+
+def _axis_done(a, upto="L"):
+    return (f"n_lines({a}) == {upto} and forall(t, 0, {upto}, NPTS({a}, t) == LEN(t, {a}) and ACCEPTED_STYLE({a}, t) == MASK(t) and "
+            f"forall(j, 0, LEN(t, {a}), LINEY({a}, t, j) * NORM() == AMP(t, {a}, j) and LINEX({a}, t, j) == j * DT(t, {a}) + START({a}, t)))")
+
+
+for _norm in (True, False):
+    for _mask in ("None", "given"):
+        _g = dict(_REC_G, MASK=(lambda t: z3.BoolVal(True)) if _mask == "None" else (lambda t: z3.Select(MASKP, t)), LM=LM)
+        _inv_norm = ["normalization_factor >= 0", "implies(CI() > 0 or _k1 > 0, normalization_factor > 0)"]
+        _inv_main = ["n_lines(AXI()) == _k3 and AXI() == CI() and start_time == START(CI(), _k3) and NORM() != 0 and (_k3 == 0 or len(time) >= 1)",
+                     "forall(t, 0, _k3, NPTS(AXI(), t) == LEN(t, CI()) and ACCEPTED_STYLE(AXI(), t) == MASK(t))",
+                     "forall(t, 0, _k3, forall(j, 0, LEN(t, CI()), LINEY(AXI(), t, j) * NORM() == AMP(t, CI(), j) and LINEX(AXI(), t, j) == j * DT(t, CI()) + START(CI(), t)))",
+                     ]
+        _c = Contract(qual=_QP + "plot_seismic_recordings_3c", params=["srecords", "valid_window_boolean_mask", "axs", "subplots_kwargs", "normalize"], ghost=_g, axioms=AX_START,
+                      make_inputs=_rec_inputs(_norm, _mask), loops=({1: _inv_norm, 3: _inv_main} if _norm else {3: _inv_main}),
+                      raises=({"ValueError": "LM != L"} if _mask == "given" else {}),
+                      ensures=["forall(a, 0, 3, " + _axis_done("a") + ")", "result is axs"] + ([] if _norm else ["NORM() == 1"]),
+                      modifies=["param:axs[0]", "param:axs[1]", "param:axs[2]"],
+                      notes="axis a shows component a of every recording, in order, one line each: the samples divided by one common factor (1 without normalisation), the "
+                            "recordings following one another in time, accepted style exactly for the recordings the mask accepts; the recordings are not written")
+        # the recorders a loop over the recordings can write are those of the axis that is current when the loop is entered (none in the normalisation loop)
+        _c.ghost_state = lambda ex, st, node: ([f"__{k}{z3.simplify(st.heap[st.env['ax'].oid].fields['index']).as_long()}" for k in "yxnv"] if "ax" in st.env else [])
+        _c.obj_havoc = {"default_kwargs": lambda ex, st, v: v}
+        _c.loop_born = {"time": lambda ex, st, _v: ex.alloc_arr(st, (ex.fresh("n_time", I),), ex.fresh("time", z3.ArraySort(I, R)), "real", "fresh", tag="time")}
+        TASKS.append(FunctionTask(_c, module_env=dict(_P_ENV, DEFAULT_KWARGS=_REC_STYLES, SeismicRecording3C=ClsV("SeismicRecording3C"), plt=OpaqueV("plt")),
+                                  registry={"TimeSeries.time": FuncV(_m_ts_time, "TimeSeries.time"), "Axes.plot": FuncV(_m_rec_plot, "plot"),
+                                            **{f"Axes.{m}": FuncV(lambda ex, st, a, k, n_: NONE, m) for m in ("set_title", "set_ylabel", "set_xlim", "set_xlabel", "set_ylim")}},
+                                  label=f"{_QP}plot_seismic_recordings_3c[normalize={_norm},mask={_mask}]",
+                                  clauses=["recordings are drawn component by component, in order, accepted or rejected style by the mask; the recordings are not written"]))
+
 META = dict(
     level="other",
     explanation="frame obligations: the 14 plotting / summary functions write nothing reachable from the HVSR object, the recordings or their keyword-argument "
